@@ -389,7 +389,7 @@ def make_files(d):
     """small files used by File recipes: (path list)"""
     out = []
     for name, size in (("empty.bin", 0), ("one.txt", 1), ("ten.txt", 10), ("big.bin", 70000), ("ünï.txt", 7), ("page.html", 33), ("ctl\there\x1b.bin", 5),
-                       ("k128.bin", 131072), ("k192.bin", 196608)):
+                       ("k128.bin", 131072), ("k192.bin", 196608), ("readme.txt.gz", 9), ("data.json.gz", 11), ("dump.gz", 4), ("notes.TXT", 6), ("archive.tar.gz", 8)):
         p = os.path.join(d, name)
         with open(p, "wb") as f:
             f.write(bytes((0x80 | (i * 31 % 128)) for i in range(size)))
